@@ -26,7 +26,8 @@ RULE = (
     "fixed pool of requested lists (empty, unknown ids, unsorted, repeated), _unique, _index_of "
     "against unsorted lookups, _flatten_per_cluster, grouped_mean (1-D and 2-D values). "
     "(rand) Hypothesis: vectors to length 3000 over ids up to 5000 with wide gaps (uint16 "
-    "vectors also with ids 32768/65534/65535), signed "
+    "vectors also with ids 32768/65534/65535; one case in six has 30-80 clusters spread over "
+    "0..60000 and 20-70 requested ids), signed "
     "vectors with -1 entries for _unique, random requested lists and lookups. "
     "(model) get_cluster_spikes/get_template_spikes/get_template_counts on generated datasets. "
     "Oracle: list comprehensions over enumerate(vector) and Python sets. Non-trivial: >=2 distinct "
@@ -44,8 +45,10 @@ def _vec_cases(L):
 @st.composite
 def _rand_case(draw):
     n = draw(st.integers(0, 60) | st.integers(0, 3000))
-    nids = draw(st.integers(1, 12))
-    ids = draw(st.lists(st.integers(0, 5000), min_size=nids, max_size=nids, unique=True))
+    wide = draw(st.integers(0, 5)) == 0         # many clusters, ids spread over a wide range
+    nids = draw(st.integers(1, 12)) if not wide else draw(st.integers(30, 80))
+    ids = draw(st.lists(st.integers(0, 5000 if not wide else 60000), min_size=nids,
+                        max_size=nids, unique=True))
     dt = draw(st.sampled_from(DTYPES))
     if dt == 'uint16' and draw(st.booleans()):
         # ids at the top of the dtype's range (bincount-sized tables stay small for uint16 only)
@@ -53,7 +56,8 @@ def _rand_case(draw):
         nids = len(ids)
     idx = draw(st.lists(st.integers(0, nids - 1), min_size=n, max_size=n))
     v = [ids[i] for i in idx]
-    req = draw(st.lists(st.sampled_from(ids) | st.integers(0, 5001), max_size=6))
+    req = draw(st.lists(st.sampled_from(ids) | st.integers(0, 5001), max_size=6 if not wide else 70,
+                        min_size=0 if not wide else 20))
     neg = draw(st.lists(st.integers(0, max(0, n - 1)), max_size=4)) if dt.startswith('int') else []
     lookup_perm = draw(st.permutations(sorted(set(ids))))
     return {'k': 'rand', 'v': v, 'dt': dt, 'req': req, 'neg': neg, 'lookup': list(lookup_perm)}
